@@ -100,7 +100,9 @@ def _node(x):
 def replay(run: common.Run, case: dict, key: str = ""):
     problems = []
     rep = lambda k, c, d: problems.append((k, d))
-    if "node" in case:
+    if "package" in case:
+        package_pass(run, rep)
+    elif "node" in case:
         check_program(run, _node(case["node"]), {k: (v[0], v[1]) for k, v in case["env"].items()}, rep)
     else:
         check_src(run, case["src"], {}, {"src": case["src"]}, rep)
@@ -113,6 +115,24 @@ def corpus_pass(run: common.Run, report, shard: Optional[Tuple[int, int]] = None
             continue
         check_src(run, e, {}, {"src": e}, report)
         run.event("corpus")
+
+
+def package_pass(run: common.Run, report) -> None:
+    """Activations with package-qualified names (Environment(package=...)): both runners must resolve them alike."""
+    from checks import c12
+
+    for package in (None, "p", "p.q"):
+        for bi, b in enumerate(c12.PKG_MACRO_BINDINGS):
+            binds = {k: c12.to_cel_any(v) for k, v in b.items()}
+            for expr in c12.PKG_MACRO_EXPRS + ["x + 1", "l", "size(l)", "p.x", ".x", "v"]:
+                run.tick()
+                run.event("package-activation")
+                i = cel.evaluate(expr, binds, "I", package=package)
+                c = cel.evaluate(expr, binds, "C", package=package)
+                if package:
+                    run.nt((expr, package, bi))
+                if i != c:
+                    report(f"IC-package-activation-{mode_of(i, c)}", {"src": expr, "package": package, "bindings": b}, f"package={package} {expr} with {b}: I={outcome.short(i)[:100]} C={outcome.short(c)[:100]}")
 
 
 def campaign(run: common.Run) -> None:
@@ -145,6 +165,7 @@ def main(run: common.Run) -> None:
         for k, d in replay(run, doc["case"], doc.get("key", "")):
             run.fail(k, doc["case"], d)
         run.event("replayed")
+    package_pass(run, run.fail)
     if run.tier == "quick":
         corpus_pass(run, run.fail, shard=(run.seed % 2, 2))
         campaign(run)
